@@ -22,9 +22,9 @@ func init() {
 
 // manglerImpl describes one implementation of transform.Mangler.
 type manglerImpl struct {
-	name              string
-	mangle, unmangle  *ssa.Function
-	recurse           *ssa.Function
+	name             string
+	mangle, unmangle *ssa.Function
+	recurse          *ssa.Function
 }
 
 func manglerImpls(c *Ctx) []manglerImpl {
